@@ -230,6 +230,8 @@ class Runner:
         grads = self.make_grads(present, outc)
         for gi in range(self.ng):
             for p, gr in zip(self.params[gi], grads[gi]):
+                if draw.get("toggle_rg"):
+                    p.requires_grad_(gr is not None)
                 p.grad = None if gr is None else gr.clone()
         self._tensors = [realopt.block_state_tensors(opt, gi) for gi in range(self.ng)]
         self._prev_param = [{b: (t_.to_local() if hasattr(t_, "to_local") else t_).detach().to(F64).clone()
